@@ -16,6 +16,7 @@ use vstd::prelude::*;
 use std::cmp::Ordering;
 use vstd::std_specs::cmp::OrdSpec;
 verus! {
+//@prelude std_combinators
 
 // ---- std: <[T]>::binary_search_by (ASSUMED; documented std behaviour for a slice partitioned by the comparator)
 pub open spec fn ord_rank(o: Ordering) -> int { match o { Ordering::Less => 0, Ordering::Equal => 1, Ordering::Greater => 2 } }
